@@ -462,7 +462,7 @@ package ecs
 //@   props C16 C09
 //@   requires regInv(&w.registry)
 //@   panics_if !mapHas(w.registry.Components, tp.val) && (isLocked(w) || regCount(&w.registry) >= MaskTotalBits)
-//@   flag panic_restores
+//@   flag panic_restores convcheck arithcheck
 //@   on_panic regSame(&w.registry) && regInv(&w.registry)
 //@   dirty_unless mapHas(w.registry.Components, tp.val)
 //@   ensures regInv(&w.registry)
@@ -612,3 +612,47 @@ package ecs
 //@   ensures w.resources.resources[int(id.id)].val == ref(res) && w.resources.resources[int(id.id)] != nil
 //@   ensures forall i int :: {w.resources.resources[i]} 0 <= i && i < MaskTotalBits && i != int(id.id) ==> w.resources.resources[i] == old(w.resources.resources[i])
 //@   modifies w.resources.resources[ALL], w.resources.registry.Components[ALL], w.resources.registry.Types[ALL], w.resources.registry.Used.bits, w.resources.registry.IsRelation.bits, w.resources.registry.IDs, w.resources.registry.IDs[ALL]
+
+// ---- C16: layout-table sizing --------------------------------------------------------------------
+// The per-table component lookup is sized from the registry count in chunks of 16. The arithmetic on
+// that count must be lossless over the whole ID range (flags convcheck / arithcheck turn every narrowing
+// conversion and unsigned addition of these functions into an obligation). The storage functions called
+// here are under assumed contracts (unsafe memory, see DESIGN.md).
+
+//@ func pagedSlice[archetype].Add(p, value)
+//@   flag trusted
+//@   modifies *p
+//@ func pagedSlice[archetypeData].Add(p, value)
+//@   flag trusted
+//@   modifies *p
+//@ func pagedSlice[archetype].Get(p, index) (r)
+//@   flag trusted
+//@   ensures r != nil
+//@ func pagedSlice[archetypeData].Get(p, index) (r)
+//@   flag trusted
+//@   ensures r != nil
+//@ func pagedSlice[archetype].Len(p) (n)
+//@   flag trusted
+//@   ensures n == p.len
+//@ func archetype.Init(a, node, data, index, forStorage, layouts, relation)
+//@   flag trusted
+//@   requires layouts >= 16
+//@   modifies *a, *data, node.IsActive
+//@ func archNode.CreateArchetype(a, layouts, target) (arch)
+//@   flag trusted
+//@   requires layouts >= 16
+//@   ensures arch != nil
+//@   modifies all(nodeData.freeIndices), all(archetypeData.index)
+//@ func archNode.SetArchetype(a, arch)
+//@   flag trusted
+//@   modifies a.nodeData.archetype
+//@ func Cache.addArchetype(c, arch)
+//@   flag trusted
+//@   modifies all(cacheEntry.Indices)
+
+//@ func World.createArchetype(w, node, target, forStorage) (arch)
+//@   props C16
+//@   requires regInv(&w.registry) && node != nil
+//@   flag convcheck nodirty noframe
+//@   ensures arch != nil
+//@   modifies *(&w.archetypes), *(&w.archetypeData), all(nodeData.freeIndices), all(archetypeData.index), all(cacheEntry.Indices), all(nodeData.archetype), all(archNode.IsActive)
